@@ -806,15 +806,63 @@ def lock_graph(path="/repo/ffi/storm-ffi/src/lib.rs"):
     return sorted(edges), where
 
 
+def _fn_body(src, name):
+    """source text of `fn name(...) { ... }` (brace matching from the first `{` behind the signature)"""
+    m = re.search(r"fn\s+%s\s*\(" % re.escape(name), src)
+    if not m: return ""
+    i = src.find("{", m.end())
+    depth, k = 0, i
+    while k < len(src):
+        if src[k] == "{": depth += 1
+        elif src[k] == "}":
+            depth -= 1
+            if depth == 0: return src[i:k + 1]
+        k += 1
+    return src[i:]
+
+
+def close_protocol(path="/repo/ffi/storm-ffi/src/lib.rs"):
+    """the facts Model.C19Close assumes about the C API's source, read lexically: the order of SFileCloseArchive's three sections,
+    whether SFileFindFirstFile looks the archive up again after storing its handle, whether SFileOpenFileEx keeps the archive
+    table locked until the file handle is stored"""
+    src = open(path).read()
+    idx = {n: i for i, n in enumerate(LOCKS)}
+    body = _fn_body(src, "SFileCloseArchive")
+    marks = []
+    for lock, verb in (("ARCHIVES", "remove"), ("FILES", "retain"), ("FIND_HANDLES", "retain")):
+        m = re.search(r"\b%s\b(?:(?!;).)*?\.%s\(" % (lock, verb), body, re.S)
+        marks.append((m.start() if m else 10 ** 9, idx[lock], bool(m)))
+    order = [l for pos, l, found in sorted(marks) if found]
+    fb = _fn_body(src, "SFileFindFirstFile")
+    ins = re.search(r"FIND_HANDLES\s*\.lock\(\)\s*\.unwrap\(\)\s*\.insert\(", fb)
+    recheck = False
+    if ins:
+        rest = fb[ins.end():]
+        look = re.search(r"ARCHIVES\s*\.lock\(\)\s*\.unwrap\(\)\s*\.contains_key\(", rest)
+        recheck = bool(look and re.search(r"FIND_HANDLES\s*\.lock\(\)\s*\.unwrap\(\)\s*\.remove\(", rest[look.end():]))
+    ob = _fn_body(src, "SFileOpenFileEx")
+    g = re.search(r"\n    let (?:mut )?(\w+) = ARCHIVES\s*\.lock\(\)", ob)   # a guard bound at the level of the function body
+    fi = re.search(r"FILES\s*\.lock\(\)\s*\.unwrap\(\)\s*\.insert\(", ob)
+    atomic = bool(g and fi and g.start() < fi.start() and not re.search(r"drop\(\s*%s\s*\)" % g.group(1), ob[g.end():fi.start()]))
+    return order, recheck, atomic
+
+
 def gen_locks_lean():
     edges, where = lock_graph()
+    order, recheck, atomic = close_protocol()
     idx = {n: i for i, n in enumerate(LOCKS)}
     lines = ["/- GENERATED by tools/drivers.py:gen_locks_lean from ffi/storm-ffi/src/lib.rs (lexical lock-order scan). Do not edit. -/",
              "import WowVerif.Lib.Graph", "namespace Wv.Gen",
              "def lockNames : List String := [%s]" % ", ".join('"%s"' % n for n in LOCKS),
              "/-- (held, acquired) pairs found in the source -/",
              "def lockEdges : List (Nat × Nat) := [%s]" % ", ".join("(%d, %d)" % (idx[a], idx[b]) for a, b in edges),
-             "def lockEdgesAcyclic : Bool := Wv.Graph.acyclic %d lockEdges" % len(LOCKS), "end Wv.Gen", ""]
+             "def lockEdgesAcyclic : Bool := Wv.Graph.acyclic %d lockEdges" % len(LOCKS),
+             "/-- SFileCloseArchive: the tables it empties, in source order (Model.C19Close assumes ARCHIVES, FILES, FIND_HANDLES) -/",
+             "def closeSections : List Nat := [%s]" % ", ".join(str(x) for x in order),
+             "/-- SFileFindFirstFile looks the archive up again after storing its handle and drops the handle if it is gone -/",
+             "def findRechecks : Bool := %s" % ("true" if recheck else "false"),
+             "/-- SFileOpenFileEx keeps the archive table locked until the file handle is stored -/",
+             "def openFileAtomic : Bool := %s" % ("true" if atomic else "false"), "end Wv.Gen", ""]
     return "\n".join(lines), edges, where
 
 
@@ -1055,6 +1103,7 @@ def c02_driver(ctx):
         ver, shift = rng.below(2), rng.pick([0, 0, 1, 3])
         ssz = 512 << shift
         specs, exp = [], []
+        odd_tail = {}       # name -> some stored unit's length is not a multiple of 4 (where finding D11b applies)
         nf = 1 + rng.below(5)
         for k in range(nf):
             name = ["flat%d.txt" % k, "Dir\\Sub\\file%d.dat" % k, "a\\b%d.bin" % k, "x%d" % k, "zone\\Azeroth_%d.wdt" % k][k % 5 if i % 2 else k % 4]
@@ -1072,6 +1121,7 @@ def c02_driver(ctx):
             secs = [data] if ln <= ssz else [data[j:j + ssz] for j in range(0, ln, ssz)]
             units = [_ref_encode_unit(s_, method) for s_ in secs]
             specs.append("%s|%d|%s|%s" % (name.encode().hex(), enc, _rle_enc(data), ",".join(_rle_enc(u) for u in units) if units else "-"))
+            odd_tail[name.upper().replace("/", "\\")] = any(len(u) % 4 for u in units)
             exp.append("%s=%s" % (name.encode().hex(), _rle_enc(data)))
             bump("c02.lib_reads_reference.%s.%s" % (["plain", "enc", "fixkey"][enc], "path" if "\\" in name else "flat"))
         # two archives in three are what an independent writer leaves after "add T.., add the files, remove T..": files may
@@ -1090,14 +1140,26 @@ def c02_driver(ctx):
         open(ef, "w").write(" ".join(exp))
         p = subprocess.run([wvh, "fsop", "readall", af, ef], stdout=subprocess.PIPE, text=True)
         res["evals"] += nf
-        for l in p.stdout.split("\n"):
+        lines = p.stdout.split("\n")
+        if i % 3 == 2:
+            # the same archive behind a foreign prefix (header on a later 512-byte boundary): positions in the tables - and the
+            # position that enters a position-adjusted key - stay relative to the archive's own start
+            pre = 512 * (1 + i % 2)
+            p2 = subprocess.run([wvh, "fsop", "readall", af, ef, str(pre)], stdout=subprocess.PIPE, text=True)
+            res["evals"] += nf
+            bump("c02.lib_reads_reference.behind_prefix")
+            lines += [l + " [archive behind a %d-byte prefix]" % pre for l in p2.stdout.split("\n") if l.startswith("FAIL") and l not in lines]
+        for l in lines:
             if l.startswith("FAIL"):
                 nm = l.split(":")[0].replace("FAIL ", "")
                 spec_enc = next((int(sp.split("|")[1]) for sp in specs if bytes.fromhex(sp.split("|")[0]).decode().upper().replace("/", "\\") == nm.upper().replace("/", "\\")), 0)
                 tag = "library-cannot-read-reference-file"
-                if spec_enc and ("\\" in nm or "/" in nm):
+                if "[archive behind a " in l:
+                    # read correctly at offset 0, wrongly behind a prefix: neither recorded finding depends on where the archive starts
+                    tag = "library-cannot-read-reference-file-behind-prefix"
+                elif spec_enc and ("\\" in nm or "/" in nm):
                     tag = "interop-file-key-from-full-path"
-                elif spec_enc:
+                elif spec_enc and odd_tail.get(nm.upper().replace("/", "\\"), False):
                     tag = "interop-encrypted-tail-bytes"
                 res["oracle_fail"].append((tag, "reference-written V%d shift=%d: %s" % (ver + 1, shift, l)))
         if "ok" in p.stdout.split("\n"):
